@@ -162,9 +162,21 @@ def run(ctx: Ctx):
             checks.append(("Sphere(center)", f, lambda f=f, c=c: (g.Sphere(g.Point(np.array(c + [2, 1]) * f), 2).array, g.Sphere(g.Point(*c, 2), 2).array)))
             checks.append(("Ellipse(center)", f, lambda f=f, c=c: (g.Ellipse(g.Point(np.array(c + [1]) * f), 3, 2).array, g.Ellipse(g.Point(*c), 3, 2).array)))
             checks.append(("reflection(line)", f, lambda f=f, c=c: (g.reflection(g.Line(np.array(c + [3]) * f)).array, g.reflection(g.Line(*c, 3)).array)))
+    # integer representatives whose last coordinate is not 1 and does not divide the others (so that no scalar multiple of a
+    # w = 1 integer point has this dtype and shape of data), against the float representative with w = 1; integer radii
+    for h in ([1, 2, 2], [3, -1, 2], [1, 3, 4]):
+        c = [x / h[-1] for x in h[:-1]]
+        checks.append(("Circle(center)/integer-representative", 1, lambda h=h, c=c: (g.Circle(g.Point(np.array(h)), 2).array, g.Circle(g.Point(*c), 2.0).array)))
+        checks.append(("Ellipse(center)/integer-representative", 1, lambda h=h, c=c: (g.Ellipse(g.Point(np.array(h)), 3, 2).array, g.Ellipse(g.Point(*c), 3.0, 2.0).array)))
+        checks.append(("translation(point)/integer-representative", 1, lambda h=h, c=c: (g.translation(g.Point(np.array(h))).array, g.translation(*c).array)))
+    for h in ([1, 2, 3, 2], [3, -1, 0, 2], [1, 3, -2, 4]):
+        c = [x / h[-1] for x in h[:-1]]
+        checks.append(("Sphere(center)/integer-representative", 1, lambda h=h, c=c: (g.Sphere(g.Point(np.array(h)), 2).array, g.Sphere(g.Point(*c), 2.0).array)))
+        checks.append(("rotation(axis)/integer-representative", 1, lambda h=h, c=c: (g.rotation(0.7, axis=g.Point(np.array(h))).array, g.rotation(0.7, axis=g.Point(*c)).array)))
+        checks.append(("Cone(vertex)/integer-representative", 1, lambda h=h, c=c: (g.Cone(g.Point(np.array(h)), g.Point(1, 1, 5), 2).array, g.Cone(g.Point(*c), g.Point(1, 1, 5), 2.0).array)))
     for name, f, fn in checks:
         n_cases += 1
-        stratum = "negative-factor" if f < 0 else "positive-factor"
+        stratum = "integer-representative" if "integer-representative" in name else ("negative-factor" if f < 0 else "positive-factor")
         ctx.count(stratum)
         try:
             a, b = fn()
